@@ -369,9 +369,10 @@ def text_stream(chk, n_per_dialect, name='text'):
     diverged, first = 0, None
     for (d, src, text, py), o in zip(metas, outs):
         om = 'accept' if o.startswith('accept ') else o
-        if om == 'accept' and py == 'reject':
+        if py == 'reject' and (om == 'accept' or om.startswith('lexerr ')):
             # the model has the lexer and the table-driven parser, not the semantic actions: an action may reject a
-            # grammatical sentence (ensure_select_keyword_order, ...); the converse (impl accepts, model rejects) diverges
+            # grammatical sentence (ensure_select_keyword_order, ...) or raise during a reduction before the lexer error
+            # behind it is reached ('Alias can not contain multiple parts'); the converse (impl accepts, model rejects) diverges
             dist['%s/action-reject' % d] = dist.get('%s/action-reject' % d, 0) + 1
             continue
         if om != py:
